@@ -6,5 +6,6 @@ import IweModel.Props.C01
 #print axioms Iwe.C01.project_tokens
 #print axioms Iwe.C01.pipeline_tokens
 #print axioms Iwe.C01.reader_content
+#print axioms Iwe.C01.reader_frontmatter
 #print axioms Iwe.C01.reader_content_html_text_counterexample
 #print axioms Iwe.C01.frontmatter_verbatim
